@@ -239,7 +239,7 @@ impl Prop for C11 {
                 Step::Read { ctl } => world.exec_read(*ctl),
                 Step::Hw(op) => world.exec_hw(op),
                 Step::Tst { code } => world.exec_tst(*code),
-                Step::Q(_) => {}
+                Step::Q(_) | Step::Prefill(_) => {}
             }
         }
         // ---- the sweep
